@@ -79,12 +79,15 @@ PLANS = {
     "C04": lambda tier: {
         "level": "exploration",
         "stages": [main_stage(40, 300, tier, death_is_violation=True),
-                   main_stage(60, 120, tier, build="valgrind", name="valgrind", death_is_violation=True, shards=8)]
+                   main_stage(60, 120, tier, build="valgrind", name="valgrind", death_is_violation=True, shards=8),
+                   # exact-surface lookup through the Python binding (Dictionary.lookup, also into a reused list)
+                   dict(main_stage(60, 240, tier, name="pylookup", shards=8), needs=["py", "cli"], extra=["--prop-alias", "C19", "--scale", "2"],
+                        kinds_re="^python_lookup$")]
                   + ([] if tier == "quick" else [
                       main_stage(60, 300, tier, build="asan", name="asan", death_is_violation=True),
                       dict(main_stage(60, 900, tier, build="miri", name="miri"), shards=16)]),
         "require": ["lookups_with_matches", "exact_lookups", "trie_accesses_seen_by_hook", "word_id_table_accesses_seen_by_hook", "huge_dictionary_keys_checked",
-                    "valgrind.lookups_with_matches"],
+                    "valgrind.lookups_with_matches", "pylookup.py_lookups"],
         "rule": "seeded dictionary stacks (system + 0..14 user layers; keys sharing prefixes, prefix chains, 2-127 homographs, astral / "
                 "single-byte keys, non-indexed rows, bulk lexicons of 100-4000 keys, thorough: 20k-70k keys so word-id-table offsets cross "
                 "255 and 65535; loaded aligned and from an odd address) x texts x EVERY byte offset (also inside characters): the multiset "
@@ -232,8 +235,12 @@ PLANS = {
     },
     "C10": lambda tier: {
         "level": "exploration",
-        "stages": [main_stage(40, 300, tier)],
-        "require": ["history_operations", "probes_compared", "history_analyses_rejected", "histories_completed"],
+        "stages": [main_stage(40, 300, tier),
+                   # the Python binding keeps state of its own (per-call mode override, out= lists): the history part of
+                   # C19's driver runs here too; only its history kinds are judged under this property
+                   dict(main_stage(60, 240, tier, name="pyhist", shards=8), needs=["py", "cli"], extra=["--prop-alias", "C19", "--scale", "2"],
+                        kinds_re="^python_(history|mode_override)$")],
+        "require": ["history_operations", "probes_compared", "history_analyses_rejected", "histories_completed", "pyhist.py_history_probes", "pyhist.py_override_checks"],
         "rule": "seeded worlds (random plugin stacks incl. MeCab / regex OOV, path-rewrite plugins in 1 of 3) x histories of 5-40 operations on "
                 "ONE long-lived StatefulTokenizer + reused MorphemeList + reused split list: set_mode, set_subset (random of the 1,024 subsets; "
                 "restricted to supersets of surface/POS/normalised form when path-rewrite plugins are configured), analyse(text: empty, "
